@@ -193,6 +193,7 @@ def gen_pretty():
     out += escape_tables(src)
     out += "Open Scope Z_scope.\n"
     out += tr_writer_call(src, "_LengthTrackingWriter.__call__", "writer_call") + "\n"
+    out += "Close Scope Z_scope.\n"
     return out
 
 
